@@ -165,7 +165,8 @@ def gen_round(rng, chk):
 
 def gen_reject(rng, chk):
     kind = rng.choice(["othertype", "noref-temp", "noref-money",
-                       "noref-money-two-currencies", "noref-user-unit"])
+                       "noref-money-two-currencies", "noref-user-unit",
+                       "subclass-quantum"])
     zero = rng.random() < 0.35
     pre = []
     if kind == "othertype":
@@ -186,6 +187,17 @@ def gen_reject(rng, chk):
                         ["m", MON, "register_currency", [["s", "EUR"]]]]]
         b = ["c", MON, [num(F(5, 100)),
                         ["m", MON, "register_currency", [["s", "USD"]]]]]
+    elif kind == "subclass-quantum":
+        # a subclass with a reference unit of its own is another type, in
+        # both directions (an instance of it IS an instance of the parent)
+        pre = [{"cls": {"name": "Sub13",
+                        "base": ["g", "quantity.predefined:Length"],
+                        "kw": {"ref_unit_symbol": ["s", "s13"]}}}]
+        a = Q(num(F(0) if zero else F(34591, 20)), rng.choice(["m", "km"]))
+        b = Q(num(F(1)), "s13")
+        if rng.random() < 0.5:
+            a, b = Q(num(F(0) if zero else F(34591, 20)), "s13"), \
+                Q(num(F(1)), "m")
     elif kind == "noref-user-unit":
         # a user's multiple of the kelvin: no converter row names it
         TEMP = ["g", "quantity.predefined:Temperature"]
@@ -214,7 +226,7 @@ def gen_reject(rng, chk):
         if obs is None:
             chk.inconclusive_because("C13 reject case not observed")
             return
-        chk.case(("reject", kind, str(steps[0]["e"])), nontrivial=True)
+        chk.case(("reject", kind, str(a), str(b)), nontrivial=True)
         chk.count("reject|" + kind)
         if zero:
             chk.count("reject|zero amount")
@@ -250,6 +262,7 @@ def run(chk, R, tier, seed):
     chk.require("reject|noref-money")
     chk.require("reject|noref-money-two-currencies")
     chk.require("reject|noref-user-unit")
+    chk.require("reject|subclass-quantum")
     chk.extra["rounding_model_selfcheck_cases"] = RM.SELFCHECK_CASES
     for _ in range(rounds):
         cases = []
